@@ -169,7 +169,7 @@ func runC03(r *kit.Run) {
 						c := c03Case{Construct: construct, ContErr: flags&1 != 0, ContPanic: flags&2 != 0, InclCtx: flags&4 != 0, Excluded: ex, Kind: kind}
 						c.Collector = c03Collectors[rng.IntN(3)]
 						if ex == "injected" {
-							c.ExclHow = []string{"one Add call", "two Add calls", "Set(conf) then Add(others)"}[rng.IntN(3)]
+							c.ExclHow = []string{"one Add call", "two Add calls", "Set(conf) then Add(others)", "one Add call, list with unset (nil) entries"}[rng.IntN(4)]
 						}
 						c.W = []int{1, 2, 4, 8}[rng.IntN(4)]
 						c.N = 50*c.W + rng.IntN(40)
@@ -332,6 +332,11 @@ func c03Run(r *kit.Run, idx int64, c c03Case, rng *rand.Rand, quiet bool) (after
 			opts = append(opts, fun.WorkerGroupConfAddExcludeErrors(errors.New("unrelated")))
 		case "two Add calls":
 			opts = append(opts, fun.WorkerGroupConfAddExcludeErrors(injectedBases...), fun.WorkerGroupConfAddExcludeErrors(errors.New("unrelated"), ers.ErrInvalidInput))
+		case "one Add call, list with unset (nil) entries":
+			// optional sentinels that happen to be unset: nil entries exclude nothing
+			// and do not end the list
+			withNil := append([]error{nil, errors.New("unrelated"), nil}, injectedBases...)
+			opts = append(opts, fun.WorkerGroupConfAddExcludeErrors(append(withNil, nil)...))
 		default:
 			opts = append(opts, fun.WorkerGroupConfAddExcludeErrors(injectedBases...))
 		}
